@@ -41,6 +41,9 @@ pub struct RunReport {
     /// hashes, 32 hex characters each, concatenated; compared across runs by the supervisor
     #[serde(default, skip_serializing_if = "String::is_empty")]
     pub tokens: String,
+    /// names of environment variables the code under test asked for during this run
+    #[serde(default, skip_serializing_if = "Vec::is_empty")]
+    pub env_reads: Vec<String>,
 }
 
 impl RunReport {
